@@ -77,6 +77,11 @@ CHECKS = {
          "Trusted: order() is a blocking syscall suspending the whole VM, so the sequential inline-value relation is exact; promise reactions run synchronously by design. Position templates are a fixed list; real promise-job ordering is not modelled (the check asserts only value, output and errors).",
          "property-based generation (proptest choice tape) + metamorphic relations (suspend vs inline value; host schedule permutations) + execution monitor",
          "§10 C07"),
+ "C04": ("exploration",
+         "Seeded random generation (proptest choice tape) of TypeScript programs from a small declaration AST: enum blocks (auto-numbered, numeric-literal incl. negative/fractional/large, constant expressions over + - * / % ** << >> >>> & | ^ ~ with bare and qualified references to earlier members and to other (const) enums, computed non-constant numeric members incl. member references inside calls and conditionals, string/template/string-reference members, duplicate values, quoted non-identifier names, repeated `enum E` blocks, const enums, enums local to functions, blocks and loop bodies, shadowing), namespace trees (nested, dotted and merged blocks, `module` keyword, exported const/let/var/function/class/enum/namespace/interface, non-exported locals, references to exports of the same block, other blocks, later blocks and enclosing namespaces, mutation of exported variables from inside and outside, nested namespaces re-opened in later parent blocks, namespaces merged with a function, class or enum) and class families (constructor parameter properties in all seven modifier combinations with defaults, optional, plain and rest parameters, with and without extends/super incl. a statement before super(...) and a derived property re-declaring a base one, abstract classes with abstract methods/properties/accessors and concrete subclasses), interleaved with uses (forward/reverse lookups by literal, member and string key, Object.keys/values/entries/getOwnPropertyNames, for-in, JSON.stringify, typeof/instanceof, in/hasOwnProperty, spread/Object.assign, descriptors, identity and comparison, switch, passing the object to functions, writes/deletes/defineProperty/freeze through `as any`, namespace function calls, instance own-property order, prototype contents) and optionally a progen core program. Each program is rendered twice from the same AST - as TypeScript and as the JavaScript tsc is specified to emit (enum/namespace IIFEs, N.x rewriting, this.x = x after super(...), abstract erased, const enum members inlined as folded constants) - and tsrun(TypeScript) must equal node(emit) and tsrun(emit) in printed completion value, console lines and error class. Sampled, not exhaustive.",
+         "Trusted: node v20 as reference engine for the emitted JavaScript; the desugarer in harness/src/props/c04gen.rs as the statement of tsc's emit (no tsc in the sandbox: only handbook-documented constructs whose emit does not depend on the type checker or compiler options; constant folding re-implemented with IEEE doubles and cross-checked against node through auto-numbered successors). Outside the domain: uninitialised field declarations and field initialisers combined with parameter properties (emit order depends on useDefineForClassFields), direct `new` of an abstract class, writes to enum members before later enum declarations (tsc folds constants), `declare enum`, `export enum` in modules, computed members in enums with string members (TS2553), bare references to members of an earlier block of the same enum, static inheritance between class constructors (C01). One open known finding is excluded by construction and counted: JSON.stringify of objects with two or more members (sorted key order). If node is absent only the self-differential part runs.",
+         "property-based random program generation (proptest choice tape, shrinking) + differential testing against a reference engine (node) and self-differential testing against a reference desugarer",
+         "§10 C04, Appendix B"),
 }
 
 NOT_YET = {}
